@@ -11,10 +11,11 @@ CONSTANTS
   AttachGuard = TRUE
   SaveGuard = TRUE
   ObjSeq <- Seq3a
+  HandMode = FALSE
   Bias = FALSE
   Quiet = TRUE
 INIT Init
 NEXT Next
 VIEW view
-INVARIANTS RefinesDecl RefCountExact OwnerIffSingle NoDangling ReachableUnlessCyclic NoPanic
+INVARIANTS RefinesDecl RefCountExact OwnerIffSingle NoDangling IdCounter ReachableUnlessCyclic NoPanic
 CHECK_DEADLOCK FALSE
